@@ -183,7 +183,8 @@ ApiRes(p, e) ==
     [] e.op = "open_stream"        -> (IF ver = 3 THEN A3!ApiOpenStream(p, e.p) ELSE A4!ApiOpenStream(p, e.p)).res
     [] e.op = "read_storage"       -> (IF ver = 3 THEN A3!ApiReadStorage(p, e.p) ELSE A4!ApiReadStorage(p, e.p)).res
     [] e.op = "walk_storage"       -> (IF ver = 3 THEN A3!ApiWalkStorage(p, e.p) ELSE A4!ApiWalkStorage(p, e.p)).res
-    [] e.op \in {"read", "write", "set_len"} /\ Has(e, "p") -> (IF ver = 3 THEN A3!ApiOpenStream(p, e.p) ELSE A4!ApiOpenStream(p, e.p)).res
+    [] e.op = "write" /\ Has(e, "p") -> (IF ver = 3 THEN A3!ApiWriteAt(p, e.p, e.off, 0) ELSE A4!ApiWriteAt(p, e.p, e.off, 0)).res    \* (kind only: a seek beyond the end is refused)
+    [] e.op \in {"read", "set_len"} /\ Has(e, "p") -> (IF ver = 3 THEN A3!ApiOpenStream(p, e.p) ELSE A4!ApiOpenStream(p, e.p)).res
     [] OTHER -> [k |-> "?"]
 ApiAgrees(p, e) ==
   LET r == ApiRes(p, e) IN
